@@ -31,6 +31,7 @@ type RunResult struct {
 	Stats      map[string]int         `json:"stats,omitempty"`
 	Digest     string                 `json:"digest"`
 	States     []string               `json:"states,omitempty"`
+	Scheds     []string               `json:"scheds,omitempty"`
 	NonTrivial bool                   `json:"nontrivial"`
 	Sample     map[string]interface{} `json:"sample,omitempty"`
 	Choices    int                    `json:"choices"`
@@ -58,7 +59,7 @@ type ReplayFile struct {
 
 func result(r *RunCtx, withTrace bool, withEvents bool, ms int64) *RunResult {
 	res := &RunResult{Run: r.Idx, OK: r.viol == nil, Viol: r.viol, Stats: r.Stats,
-		Digest: strconv.FormatUint(r.dig.h, 16), NonTrivial: r.NonTrivial, Choices: len(r.ch.trace), Millis: ms}
+		Digest: strconv.FormatUint(r.dig.h, 16), NonTrivial: r.NonTrivial, Choices: len(r.ch.trace), Millis: ms, Scheds: r.Scheds}
 	n := 0
 	for s := range r.States {
 		if n >= 64 {
